@@ -247,7 +247,7 @@ func TestVerifRequests(t *testing.T) {
 		before := sim.ConnCount()
 		expect := []verifURL{}
 		hosts := []*verifsim.Host{}
-		mode := rng.Intn(7)
+		mode := rng.Intn(8)
 		desc := ""
 		accept := verifsim.AcceptActivity
 		noconn := false
@@ -286,6 +286,24 @@ func TestVerifRequests(t *testing.T) {
 			expect = append(expect, verifURL{path: "/d" + tag}, verifResolved(h1.URL("/d"+tag), u))
 			hosts = append(hosts, h1, h2)
 			verifkit.Try(func() { FetchUserInput(h1.URL("/d" + tag)) })
+		case 7: /* the identifier of an object embedded in (or reduced to a stub by) a document of another host: it is fetched from there */
+			u := verifHostileURL(rng, h2, tag)
+			quoted := strings.NewReplacer(`\`, `\\`, `"`, `\"`).Replace(u.typed)
+			inner := `{"id":"` + quoted + `","type":"Note","content":"embedded","published":"2024-01-01T00:00:00Z"}`
+			key := "inReplyTo"
+			switch rng.Intn(3) {
+			case 1:
+				inner = `{"id":"` + quoted + `"}`
+			case 2:
+				inner = `{"id":"` + quoted + `","type":"Person","name":"n"}`
+				key = "attributedTo"
+			}
+			desc = key + ": " + inner
+			h1.Set("/e"+tag, note(h1, "/e"+tag, `,"`+key+`":`+inner))
+			/* an identifier is an address of its own, not a reference resolved against the document: it arrives as written */
+			expect = append(expect, verifURL{path: "/e" + tag}, u)
+			hosts = append(hosts, h1, h2)
+			verifkit.Try(func() { FetchUserInput(h1.URL("/e" + tag)) })
 		case 3: /* webfinger handle */
 			account := []string{"alice", "a b", "a&resource=evil", "a\r\nX-Evil: 1", "é", "a%0d%0ab", "a#b", "a?b=c"}[rng.Intn(8)]
 			handle := "@" + account + "@" + h1.Addr
